@@ -18,6 +18,7 @@
 #include "cached_settings.h"
 #include <cppcms/json.h>
 #include "cgi_api.h"
+#include <booster/verif_trace.h>
 #include <cppcms/util.h>
 #include <scgi_header.h>
 #include <stdlib.h>
@@ -187,11 +188,13 @@ void connection::async_prepare_request(	http::context *context,
 		get_io_service().post(func_to_handler(h,http::context::operation_aborted));
 		return;
 	}
+	BOOSTER_VERIF_EMIT("\"e\":\"Prepare\",\"c\":%lu",(unsigned long)((size_t)this & 0xFFFFFF));
 	async_read_headers(mfunc_to_event_handler(&connection::on_headers_read,self(),context,h));
 }
 
 void connection::on_headers_read(booster::system::error_code const &e,http::context *context,ehandler const &h)
 {
+	BOOSTER_VERIF_EMIT("\"e\":\"Complete\",\"c\":%lu,\"ec\":%d",(unsigned long)((size_t)this & 0xFFFFFF),e.value());
 	if(e)  {
 		set_error(h,e.message());
 		return;
